@@ -513,6 +513,7 @@ def main():
         "samples": summ[:1] + nsumm[:1]})
     v.assumptions = ["sklearn.clone / copy.deepcopy / pickle are third-party: exercised, not modelled",
                      "nested (module__name) routing: modelled (Params_nested.v) and tied by correspondence for DualVigilanceART and BARTMAP over Fuzzy ART; the other compound estimators on the implementation only"]
+    v.cov["added_after_wave_7"] = 'set_params on an estimator fitted before at a fine vigilance, then fit, against a constructed twin (labels; predictions, map, cluster count where defined)'
     sys.exit(v.finish(level="proof"))
 
 
